@@ -1,98 +1,1197 @@
-use std::sync::{Arc, Barrier};
-use tensor_chain::{Block, ChainConfig, TensorChain, Transaction, ValidatorSignature};
-use tensor_chain::signing::Identity;
-use tensor_store::{TensorStore, TensorData, TensorValue, ScalarValue};
+//! C16 correspondence harness: drives the real `TensorChain` / `Chain` / `TensorStateMachine`.
+//! Case kinds (Gallina terms for NV.C16.Run):
+//!   seq    : begin/put/delete/commit/rollback/append_block histories   -> check_seq1
+//!   tamper : a chain + [(mutation of a stored block, verify() code)]   -> check_tamper1
+//!   conc   : 2-4 concurrent commits (commit hook / barrier)            -> check_conc1
+//!   replay : the same blocks applied on two replicas                   -> check_replay1
+//!   layout : header fields + signing_bytes()                           -> check_layout
+use nvh_common::*;
+use std::collections::HashMap;
+use std::sync::atomic::{AtomicUsize, Ordering};
+use std::sync::mpsc;
+use std::sync::{Arc, Barrier, Condvar, Mutex};
+use std::time::Duration;
+use tensor_chain::signing::{Identity, ValidatorRegistry};
+use tensor_chain::{
+    Block, BlockHeader, Chain, ChainConfig, ChainError, TensorChain, TensorStateMachine, Transaction,
+    TransactionWorkspace, ValidatorSignature,
+};
+use tensor_store::{ScalarValue, SparseVector, TensorStore, TensorValue};
 
-fn mk(seed: u8) -> TensorChain {
-    let store = TensorStore::new();
-    let id = Identity::from_bytes(&[seed; 32]).unwrap();
-    let mut cfg = ChainConfig::new("x");
-    cfg.auto_merge.enabled = false;
-    let c = TensorChain::with_identity(store, cfg, id);
-    c.initialize().unwrap();
-    c
+// ------------------------------------------------------------------------------------ model-side types
+#[derive(Clone, Debug, PartialEq, Eq)]
+enum Tx {
+    Put(u64, Vec<u8>),
+    Del(u64),
 }
-fn put(c: &TensorChain, k: &str, v: &[u8]) -> Result<[u8;32], String> {
-    let ws = c.begin().unwrap();
-    ws.add_operation(Transaction::Put { key: k.into(), data: v.to_vec() }).unwrap();
-    c.commit(&ws).map_err(|e| e.to_string())
-}
-fn read_block(c: &TensorChain, h: u64) -> Block { c.get_block(h).unwrap().unwrap() }
-fn write_block(c: &TensorChain, h: u64, b: &Block) {
-    let key = format!("chain:block:{h}");
-    let mut d = c.store().get(&key).unwrap();
-    d.set("_block", TensorValue::Scalar(ScalarValue::Bytes(bitcode::serialize(b).unwrap())));
-    c.store().put(&key, d).unwrap();
-}
-fn main() {
-    let c = mk(7);
-    println!("node_id={} len={}", c.node_id(), c.node_id().len());
-    for i in 0..3 { put(&c, &format!("k{i}"), &[i as u8]).unwrap(); }
-    println!("verify after 3: {:?}", c.verify());
-    let b2 = read_block(&c, 2);
-    println!("pre len {} emb bytes {:?}", b2.header.signing_bytes().len(), bitcode::serialize(&b2.header.delta_embedding).unwrap());
-    println!("tx ser {:?}", bitcode::serialize(&b2.transactions[0]).unwrap());
-    // F-C16-sigs
-    let mut m = b2.clone();
-    m.signatures.push(ValidatorSignature { validator: "evil".into(), signature: vec![1,2,3], block_hash: [9;32] });
-    write_block(&c, 2, &m);
-    println!("sigs mutated: {:?}", c.verify());
-    let mut m = b2.clone(); m.header.timestamp += 1; write_block(&c, 2, &m);
-    println!("ts+1 mutated: {:?}", c.verify().map_err(|e| e.to_string()));
-    write_block(&c, 2, &b2);
-    // genesis tx mutation
-    let g = read_block(&c, 0);
-    let mut m = g.clone(); m.transactions.push(Transaction::Put{key:"evil".into(), data: vec![1]}); write_block(&c, 0, &m);
-    println!("genesis txs mutated: {:?}", c.verify().map_err(|e| e.to_string()));
-    let mut m = g.clone(); m.header.signature = vec![1]; write_block(&c, 0, &m);
-    println!("genesis sig mutated: {:?}", c.verify().map_err(|e| e.to_string()));
-    write_block(&c, 0, &g);
-    // merkle dup
-    let ws = c.begin().unwrap();
-    for i in 0..3 { ws.add_operation(Transaction::Put { key: format!("m{i}"), data: vec![i] }).unwrap(); }
-    c.commit(&ws).unwrap();
-    let b4 = read_block(&c, 4);
-    let mut m = b4.clone(); let last = m.transactions[2].clone(); m.transactions.push(last); write_block(&c, 4, &m);
-    println!("merkle dup-tail: {:?}", c.verify().map_err(|e| e.to_string()));
-    write_block(&c, 4, &b4);
-    // rollback of an older workspace after another commit
-    let c2 = mk(8);
-    let w1 = c2.begin().unwrap();
-    w1.add_operation(Transaction::Put { key: "a".into(), data: vec![1] }).unwrap();
-    put(&c2, "b", &[2]).unwrap();
-    println!("before rollback: height {} verify {:?} b={}", c2.height(), c2.verify().map_err(|e| e.to_string()), c2.store().exists("b"));
-    println!("rollback: {:?}", c2.rollback(&w1).map_err(|e| e.to_string()));
-    println!("after rollback: height {} verify {:?} b={}", c2.height(), c2.verify().map_err(|e| e.to_string()), c2.store().exists("b"));
-    // unsigned block at height 1 via append_block
-    let c3 = mk(9);
-    let blk = c3.new_block().add_transaction(Transaction::Put{key:"z".into(), data: vec![1]}).build();
-    println!("append unsigned h1: {:?}", c3.append_block(blk).map_err(|e| e.to_string()));
-    println!("verify: {:?}", c3.verify().map_err(|e| e.to_string()));
-    // ts regress
-    let c4 = mk(10);
-    put(&c4, "k", &[1]).unwrap();
-    let id = Identity::from_bytes(&[10; 32]).unwrap();
-    let mut blk = c4.new_block().add_transaction(Transaction::Put{key:"z".into(), data: vec![1]}).build();
-    blk.header.timestamp = 5;
-    blk.header.signature = id.sign(&blk.header.signing_bytes());
-    println!("append ts-regress: {:?}", c4.append_block(blk).map_err(|e| e.to_string()));
-    println!("verify: {:?}", c4.verify().map_err(|e| e.to_string()));
-    // race
-    let mut bad = 0;
-    for run in 0..10 {
-        let c = Arc::new(mk(20 + run));
-        let bar = Arc::new(Barrier::new(2));
-        let hs: Vec<_> = (0..2).map(|t| { let c = c.clone(); let bar = bar.clone(); std::thread::spawn(move || {
-            let ws = c.begin().unwrap();
-            ws.add_operation(Transaction::Put { key: format!("key{t}"), data: vec![t as u8] }).unwrap();
-            bar.wait();
-            c.commit(&ws).is_ok()
-        })}).collect();
-        let rs: Vec<bool> = hs.into_iter().map(|h| h.join().unwrap()).collect();
-        let v = c.verify().is_ok();
-        let present: Vec<bool> = (0..2).map(|t| c.store().exists(&format!("key{t}"))).collect();
-        if !v || rs.iter().zip(&present).any(|(r,p)| *r && !*p) { bad += 1; }
-        if run < 3 { println!("race run {run}: rs={rs:?} present={present:?} verify={v} height={}", c.height()); }
+impl Tx {
+    fn coq(&self) -> String {
+        match self {
+            Tx::Put(k, v) => format!("TPut {k} {}", bytes(v)),
+            Tx::Del(k) => format!("TDel {k}"),
+        }
     }
-    println!("race bad {bad}/10");
+    fn real(&self) -> Transaction {
+        match self {
+            Tx::Put(k, v) => Transaction::Put { key: format!("key{k}"), data: v.clone() },
+            Tx::Del(k) => Transaction::Delete { key: format!("key{k}") },
+        }
+    }
+    fn of(t: &Transaction) -> Option<Tx> {
+        let kk = |s: &str| s.strip_prefix("key").and_then(|x| x.parse::<u64>().ok());
+        match t {
+            Transaction::Put { key, data } => kk(key).map(|k| Tx::Put(k, data.clone())),
+            Transaction::Delete { key } => kk(key).map(Tx::Del),
+            _ => None,
+        }
+    }
+}
+fn txs_coq(l: &[Tx]) -> String {
+    list(l.iter().map(|t| t.coq()))
+}
+
+fn err_code(e: &ChainError) -> u64 {
+    let s = e.to_string();
+    match e {
+        ChainError::ValidationFailed(m) => {
+            if m.starts_with("expected height") || m.contains("does not follow") {
+                1
+            } else if m.contains("tx_root does not match") {
+                3
+            } else if m.contains("timestamp before previous") {
+                4
+            } else if m.contains("missing block signature") {
+                5
+            } else if m.contains("unknown proposer") {
+                6
+            } else if m.contains("invalid block signature") {
+                7
+            } else if m.contains("must be signed by proposer") {
+                11
+            } else if m.contains("state_root does not match") {
+                12
+            } else {
+                90
+            }
+        }
+        ChainError::InvalidHash { .. } => 2,
+        ChainError::BlockNotFound(_) => 8,
+        ChainError::EmptyChain => 9,
+        ChainError::TransactionFailed(m) => {
+            if m.contains("not active") {
+                20
+            } else if m.contains("cannot commit transaction in state") {
+                21
+            } else if m.contains("max_txs_per_block") {
+                22
+            } else if m.contains("cannot rollback committed") {
+                23
+            } else {
+                91
+            }
+        }
+        _ => {
+            let _ = s;
+            92
+        }
+    }
+}
+fn code<T>(r: &Result<T, ChainError>) -> u64 {
+    match r {
+        Ok(_) => 0,
+        Err(e) => err_code(e),
+    }
+}
+
+// ------------------------------------------------------------------------------------ real chain context
+struct Ctx {
+    chain: Arc<TensorChain>,
+    me: Identity,
+    v2: Identity,
+    unk: Identity,
+    extra: u64,
+    maxtx: u64,
+}
+fn ident(b: u8) -> Identity {
+    let mut k = [b; 32];
+    k[0] = 0x42;
+    Identity::from_bytes(&k).unwrap()
+}
+fn mk(seed: u8, maxtx: u64, extra: u64, auto_merge: bool) -> Ctx {
+    let store = TensorStore::new();
+    let me = ident(seed);
+    let v2 = ident(seed.wrapping_add(101));
+    let unk = ident(seed.wrapping_add(202));
+    let mut cfg = ChainConfig::new("x").with_max_txs(maxtx as usize);
+    cfg.auto_merge.enabled = auto_merge;
+    let chain = TensorChain::with_identity(store, cfg, ident(seed));
+    if extra >= 1 {
+        chain.register_validator(&v2);
+    }
+    chain.initialize().unwrap();
+    Ctx { chain: Arc::new(chain), me, v2, unk, extra, maxtx }
+}
+impl Ctx {
+    fn ver(&self) -> u64 {
+        code(&self.chain.verify())
+    }
+    fn dump(&self, kk: u64) -> Vec<Option<Vec<u8>>> {
+        (0..kk)
+            .map(|k| match self.chain.store().get(&format!("key{k}")) {
+                Ok(d) => match d.get("data") {
+                    Some(TensorValue::Scalar(ScalarValue::Bytes(b))) => Some(b.clone()),
+                    _ => Some(vec![255, 255]),
+                },
+                Err(_) => None,
+            })
+            .collect()
+    }
+    fn block(&self, h: u64) -> Option<Block> {
+        self.chain.get_block(h).ok().flatten()
+    }
+    fn tip_txs(&self) -> Vec<Tx> {
+        self.block(self.chain.height()).map(|b| b.transactions.iter().filter_map(Tx::of).collect()).unwrap_or_default()
+    }
+    fn gts(&self) -> u64 {
+        self.block(0).map(|b| b.header.timestamp).unwrap_or(0)
+    }
+    fn write_block(&self, h: u64, b: &Block) {
+        let key = format!("chain:block:{h}");
+        let mut d = self.chain.store().get(&key).unwrap_or_default();
+        d.set("_block", TensorValue::Scalar(ScalarValue::Bytes(bitcode::serialize(b).unwrap())));
+        self.chain.store().put(&key, d).unwrap();
+    }
+}
+fn dump_coq(d: &[Option<Vec<u8>>]) -> String {
+    list(d.iter().map(|o| opt(o.as_ref().map(|v| bytes(v)))))
+}
+
+// ------------------------------------------------------------------------------------ seq
+#[derive(Clone, Debug)]
+struct Raw {
+    height: u64,
+    prev: u64,
+    txroot: u64,
+    txs: Vec<Tx>,
+    sig: u64,
+    ts: u64,
+}
+impl Raw {
+    fn coq(&self) -> String {
+        format!("(RD {} {} {} {} {} {})", self.height, self.prev, self.txroot, txs_coq(&self.txs), self.sig, self.ts)
+    }
+    fn good(ts: u64, txs: Vec<Tx>) -> Raw {
+        Raw { height: 0, prev: 0, txroot: 0, txs, sig: 0, ts }
+    }
+}
+fn build_raw(c: &Ctx, d: &Raw, state_root: [u8; 32]) -> Block {
+    let h = c.chain.height();
+    let hgt = match d.height {
+        0 => h + 1,
+        1 => h + 2,
+        _ => h,
+    };
+    let prev = match d.prev {
+        0 => c.chain.tip_hash(),
+        1 => [0u8; 32],
+        _ => [0xAB; 32],
+    };
+    let txs: Vec<Transaction> = d.txs.iter().map(|t| t.real()).collect();
+    let who = match d.sig {
+        3 => &c.unk,
+        4 => &c.v2,
+        _ => &c.me,
+    };
+    let mut hdr = BlockHeader::new(hgt, prev, [0u8; 32], state_root, who.node_id());
+    hdr.delta_embedding = SparseVector::new(128);
+    hdr.timestamp = d.ts;
+    let mut b = Block::new(hdr, txs);
+    b.header.tx_root = match d.txroot {
+        0 => b.compute_tx_root(),
+        1 => [0u8; 32],
+        _ => [0xCD; 32],
+    };
+    b.header.signature = match d.sig {
+        1 => vec![],
+        2 => vec![0xAA; 64],
+        _ => who.sign(&b.header.signing_bytes()),
+    };
+    b
+}
+
+#[derive(Clone, Debug)]
+enum Op {
+    Begin(u64),
+    Put(u64, u64, Vec<u8>),
+    Del(u64, u64),
+    Commit(u64, u64),
+    Rollback(u64),
+    Raw(Raw),
+}
+impl Op {
+    fn coq(&self) -> String {
+        match self {
+            Op::Begin(w) => format!("OBegin {w}"),
+            Op::Put(w, k, v) => format!("OPut {w} {k} {}", bytes(v)),
+            Op::Del(w, k) => format!("ODel {w} {k}"),
+            Op::Commit(w, ts) => format!("OCommit {w} {ts}"),
+            Op::Rollback(w) => format!("ORollback {w}"),
+            Op::Raw(d) => format!("ORaw {}", d.coq()),
+        }
+    }
+}
+struct Obs {
+    res: u64,
+    height: u64,
+    ver: u64,
+    dump: Vec<Option<Vec<u8>>>,
+    tip: Vec<Tx>,
+}
+impl Obs {
+    fn coq(&self) -> String {
+        format!("({}, {}, {}, {}, {})", self.res, self.height, self.ver, dump_coq(&self.dump), txs_coq(&self.tip))
+    }
+}
+
+/// A scripted or random history; returns (ops as executed, observations). Stops after the first op whose
+/// verify() fails (everything after a broken chain is outside the model).
+struct SeqRun {
+    ops: Vec<Op>,
+    obs: Vec<Obs>,
+}
+enum Plan {
+    Begin,
+    Put(usize, u64, Vec<u8>),
+    Del(usize, u64),
+    Commit(usize),
+    Rollback(usize),
+    Raw(Raw, i64), // ts = tip ts + delta
+}
+fn run_plan(c: &Ctx, kk: u64, plan: Vec<Plan>) -> SeqRun {
+    let mut wss: Vec<Arc<TransactionWorkspace>> = vec![];
+    let mut ops = vec![];
+    let mut obs = vec![];
+    for p in plan {
+        let (op, res) = match p {
+            Plan::Begin => {
+                let w = c.chain.begin().unwrap();
+                wss.push(w);
+                (Op::Begin(wss.len() as u64 - 1), 0)
+            }
+            Plan::Put(w, k, v) => {
+                if w >= wss.len() {
+                    continue;
+                }
+                let r = wss[w].add_operation(Tx::Put(k, v.clone()).real());
+                (Op::Put(w as u64, k, v), code(&r))
+            }
+            Plan::Del(w, k) => {
+                if w >= wss.len() {
+                    continue;
+                }
+                let r = wss[w].add_operation(Tx::Del(k).real());
+                (Op::Del(w as u64, k), code(&r))
+            }
+            Plan::Commit(w) => {
+                if w >= wss.len() {
+                    continue;
+                }
+                let h0 = c.chain.height();
+                let r = c.chain.commit(&wss[w]);
+                let ts = if r.is_ok() && c.chain.height() > h0 {
+                    c.block(c.chain.height()).map(|b| b.header.timestamp).unwrap_or(0)
+                } else {
+                    0
+                };
+                (Op::Commit(w as u64, ts), code(&r))
+            }
+            Plan::Rollback(w) => {
+                if w >= wss.len() {
+                    continue;
+                }
+                let r = c.chain.rollback(&wss[w]);
+                (Op::Rollback(w as u64), code(&r))
+            }
+            Plan::Raw(mut d, delta) => {
+                let tip_ts = c.block(c.chain.height()).map(|b| b.header.timestamp).unwrap_or(1_000_000);
+                d.ts = (tip_ts as i64 + delta).max(0) as u64;
+                let b = build_raw(c, &d, [0xEE; 32]);
+                let r = c.chain.append_block(b);
+                (Op::Raw(d), code(&r))
+            }
+        };
+        let o = Obs { res, height: c.chain.height(), ver: c.ver(), dump: c.dump(kk), tip: c.tip_txs() };
+        let broken = o.ver != 0;
+        ops.push(op);
+        obs.push(o);
+        if broken {
+            break;
+        }
+    }
+    SeqRun { ops, obs }
+}
+fn seq_term(c: &Ctx, kk: u64, gts: u64, r: &SeqRun) -> String {
+    format!(
+        "({}, ({}, {}, {}, {}, {}))",
+        c.extra,
+        kk,
+        c.maxtx,
+        gts,
+        list(r.ops.iter().map(|o| o.coq())),
+        list(r.obs.iter().map(|o| o.coq()))
+    )
+}
+fn gen_val(r: &mut Rng, uniq: &mut u8) -> Vec<u8> {
+    *uniq = uniq.wrapping_add(1);
+    let n = r.below(3) as usize;
+    let mut v = vec![*uniq];
+    for _ in 0..n {
+        v.push(r.below(256) as u8);
+    }
+    v
+}
+fn gen_txs(r: &mut Rng, kk: u64, n: usize, uniq: &mut u8) -> Vec<Tx> {
+    (0..n).map(|_| if r.chance(4, 5) { Tx::Put(r.below(kk), gen_val(r, uniq)) } else { Tx::Del(r.below(kk)) }).collect()
+}
+/// like gen_txs, but a non-empty list always holds a Put with a value no other list of the case has
+fn gen_txs_unique(r: &mut Rng, kk: u64, n: usize, uniq: &mut u8) -> Vec<Tx> {
+    let mut l = gen_txs(r, kk, n, uniq);
+    if !l.is_empty() && !l.iter().any(|t| matches!(t, Tx::Put(..))) {
+        l[0] = Tx::Put(r.below(kk), gen_val(r, uniq));
+    }
+    l
+}
+fn gen_plan(r: &mut Rng, kk: u64, len: usize, dist: &mut Dist, allow_raw: bool, allow_rollback: bool) -> Vec<Plan> {
+    let mut plan = vec![Plan::Begin];
+    let mut nws = 1usize;
+    let mut uniq = 0u8;
+    for _ in 0..len {
+        let k = r.below(100);
+        let w = r.below(nws as u64) as usize;
+        let p = if k < 12 && nws < 4 {
+            nws += 1;
+            dist.hit("seq.begin");
+            Plan::Begin
+        } else if k < 50 {
+            dist.hit("seq.put");
+            Plan::Put(w, r.below(kk), gen_val(r, &mut uniq))
+        } else if k < 58 {
+            dist.hit("seq.delete");
+            Plan::Del(w, r.below(kk))
+        } else if k < 82 {
+            dist.hit("seq.commit");
+            Plan::Commit(w)
+        } else if k < 90 && allow_rollback {
+            dist.hit("seq.rollback");
+            Plan::Rollback(w)
+        } else if allow_raw {
+            // mostly valid raw blocks, each defect with some probability
+            let ntx = r.below(3) as usize;
+            let mut d = Raw::good(0, gen_txs(r, kk, ntx, &mut uniq));
+            let mut delta = r.below(3) as i64;
+            match r.below(10) {
+                0 => d.height = r.range(1, 2),
+                1 => d.prev = r.range(1, 2),
+                2 => d.txroot = r.range(1, 2),
+                3 => d.sig = r.range(1, 4),
+                4 => delta = -(r.range(1, 5) as i64),
+                5 => d.sig = 4,
+                _ => {}
+            }
+            dist.hit(&format!("seq.raw.h{}p{}r{}s{}{}", d.height, d.prev, d.txroot, d.sig, if delta < 0 { ".ts-" } else { "" }));
+            Plan::Raw(d, delta)
+        } else {
+            dist.hit("seq.commit");
+            Plan::Commit(w)
+        };
+        plan.push(p);
+    }
+    plan
+}
+
+// ------------------------------------------------------------------------------------ tamper
+#[derive(Clone, Debug)]
+enum Mut {
+    Height(u64, u64),
+    Prev(u64),
+    TxRoot(u64),
+    SRoot(u64),
+    Emb(u64),
+    Codes(u64, Vec<u16>),
+    Ts(u64, u64),
+    Proposer(u64, u64),
+    Sig(u64, u64),
+    Txs(u64, Vec<Tx>),
+    VSigs(u64),
+    Remove(u64),
+    Swap(u64, u64),
+    Copy(u64, u64),
+    Forge(u64, Vec<Tx>, u64),
+}
+impl Mut {
+    fn coq(&self) -> String {
+        match self {
+            Mut::Height(i, v) => format!("MHeight {i} {v}"),
+            Mut::Prev(i) => format!("MPrev {i}"),
+            Mut::TxRoot(i) => format!("MTxRoot {i}"),
+            Mut::SRoot(i) => format!("MSRoot {i}"),
+            Mut::Emb(i) => format!("MEmb {i}"),
+            Mut::Codes(i, cs) => format!("MCodes {i} {}", list(cs.iter().map(|x| n(*x as u64)))),
+            Mut::Ts(i, v) => format!("MTs {i} {v}"),
+            Mut::Proposer(i, p) => format!("MProposer {i} {p}"),
+            Mut::Sig(i, k) => format!("MSig {i} {k}"),
+            Mut::Txs(i, l) => format!("MTxs {i} {}", txs_coq(l)),
+            Mut::VSigs(i) => format!("MVSigs {i}"),
+            Mut::Remove(i) => format!("MRemove {i}"),
+            Mut::Swap(i, j) => format!("MSwap {i} {j}"),
+            Mut::Copy(i, j) => format!("MCopy {i} {j}"),
+            Mut::Forge(i, l, k) => format!("MForge {i} {} {k}", txs_coq(l)),
+        }
+    }
+    fn kind(&self) -> &'static str {
+        match self {
+            Mut::Height(..) => "height",
+            Mut::Prev(..) => "prev_hash",
+            Mut::TxRoot(..) => "tx_root",
+            Mut::SRoot(..) => "state_root",
+            Mut::Emb(..) => "delta_embedding",
+            Mut::Codes(..) => "quantized_codes",
+            Mut::Ts(..) => "timestamp",
+            Mut::Proposer(..) => "proposer",
+            Mut::Sig(..) => "signature",
+            Mut::Txs(..) => "transactions",
+            Mut::VSigs(..) => "signatures",
+            Mut::Remove(..) => "remove",
+            Mut::Swap(..) => "swap",
+            Mut::Copy(..) => "copy",
+            Mut::Forge(..) => "forge",
+        }
+    }
+}
+fn flip(a: &mut [u8; 32]) {
+    a[0] ^= 0xFF;
+}
+/// apply the mutation to the stored records, run verify(), put the records back
+fn try_mut(c: &Ctx, m: &Mut) -> u64 {
+    let h = c.chain.height();
+    let saved: Vec<(u64, Option<tensor_store::TensorData>)> =
+        (0..=h).map(|i| (i, c.chain.store().get(&format!("chain:block:{i}")).ok())).collect();
+    let blk = |i: u64| c.block(i).expect("stored block");
+    let upd = |i: u64, f: &dyn Fn(&mut Block)| {
+        let mut b = blk(i);
+        f(&mut b);
+        c.write_block(i, &b);
+    };
+    match m {
+        Mut::Height(i, v) => upd(*i, &|b| b.header.height = *v),
+        Mut::Prev(i) => upd(*i, &|b| flip(&mut b.header.prev_hash)),
+        Mut::TxRoot(i) => upd(*i, &|b| flip(&mut b.header.tx_root)),
+        Mut::SRoot(i) => upd(*i, &|b| flip(&mut b.header.state_root)),
+        Mut::Emb(i) => upd(*i, &|b| b.header.delta_embedding = SparseVector::from_dense(&[1.0, 0.0, 2.0])),
+        Mut::Codes(i, cs) => upd(*i, &|b| b.header.quantized_codes = cs.clone()),
+        Mut::Ts(i, v) => upd(*i, &|b| b.header.timestamp = *v),
+        Mut::Proposer(i, p) => upd(*i, &|b| b.header.proposer = if *p == 2 { c.v2.node_id() } else { c.unk.node_id() }),
+        Mut::Sig(i, k) => upd(*i, &|b| {
+            if *k == 0 {
+                b.header.signature.clear()
+            } else if b.header.signature.is_empty() {
+                b.header.signature = vec![1]
+            } else {
+                b.header.signature[0] ^= 0xFF
+            }
+        }),
+        Mut::Txs(i, l) => upd(*i, &|b| b.transactions = l.iter().map(|t| t.real()).collect()),
+        Mut::VSigs(i) => upd(*i, &|b| {
+            b.signatures.push(ValidatorSignature { validator: "evil".into(), signature: vec![1, 2, 3], block_hash: [9; 32] })
+        }),
+        Mut::Remove(i) => {
+            c.chain.store().delete(&format!("chain:block:{i}")).unwrap();
+        }
+        Mut::Swap(i, j) => {
+            let (bi, bj) = (blk(*i), blk(*j));
+            c.write_block(*i, &bj);
+            c.write_block(*j, &bi);
+        }
+        Mut::Copy(i, j) => {
+            let bj = blk(*j);
+            c.write_block(*i, &bj);
+        }
+        Mut::Forge(i, l, k) => upd(*i, &|b| {
+            let who = match k {
+                1 => &c.unk,
+                2 => &c.v2,
+                _ => &c.me,
+            };
+            b.transactions = l.iter().map(|t| t.real()).collect();
+            b.signatures.clear();
+            b.header.proposer = who.node_id();
+            b.header.tx_root = b.compute_tx_root();
+            b.header.signature = if *k == 0 { vec![0xAA; 64] } else { who.sign(&b.header.signing_bytes()) };
+        }),
+    }
+    let v = c.ver();
+    for (i, d) in saved {
+        let key = format!("chain:block:{i}");
+        match d {
+            Some(d) => c.chain.store().put(&key, d).unwrap(),
+            None => {
+                let _ = c.chain.store().delete(&key);
+            }
+        }
+    }
+    v
+}
+fn all_muts(c: &Ctx, r: &mut Rng) -> Vec<Mut> {
+    let n = c.chain.height();
+    let mut out = vec![];
+    let mut uniq = 200u8;
+    for i in 0..=n {
+        let b = c.block(i).unwrap();
+        let txs: Vec<Tx> = b.transactions.iter().filter_map(Tx::of).collect();
+        out.push(Mut::Height(i, i + 1));
+        if i > 0 {
+            out.push(Mut::Height(i, i - 1));
+        }
+        out.push(Mut::Height(i, r.range(n + 2, 1 << 40)));
+        out.push(Mut::Prev(i));
+        out.push(Mut::TxRoot(i));
+        out.push(Mut::SRoot(i));
+        out.push(Mut::Emb(i));
+        out.push(Mut::Codes(i, vec![7]));
+        out.push(Mut::Codes(i, vec![r.below(65536) as u16, r.below(65536) as u16]));
+        out.push(Mut::Ts(i, b.header.timestamp + 1));
+        out.push(Mut::Ts(i, b.header.timestamp.saturating_sub(1)));
+        out.push(Mut::Ts(i, b.header.timestamp + r.range(2, 1 << 30)));
+        out.push(Mut::Proposer(i, 9));
+        out.push(Mut::Proposer(i, 2));
+        if !b.header.signature.is_empty() {
+            out.push(Mut::Sig(i, 0));
+        }
+        out.push(Mut::Sig(i, 1));
+        // transaction list: replace one, drop last, add one, duplicate last, swap two
+        if !txs.is_empty() {
+            let mut l = txs.clone();
+            let j = r.below(l.len() as u64) as usize;
+            l[j] = Tx::Put(77, gen_val(r, &mut uniq));
+            out.push(Mut::Txs(i, l));
+            let mut l = txs.clone();
+            l.pop();
+            out.push(Mut::Txs(i, l));
+            let mut l = txs.clone();
+            l.push(txs[txs.len() - 1].clone());
+            out.push(Mut::Txs(i, l));
+            if txs.len() >= 2 && txs[0] != txs[1] {
+                let mut l = txs.clone();
+                l.swap(0, 1);
+                out.push(Mut::Txs(i, l));
+            }
+            if txs.len() == 6 {
+                let mut l = txs.clone();
+                l.push(txs[4].clone());
+                l.push(txs[5].clone());
+                out.push(Mut::Txs(i, l));
+            }
+        }
+        let mut l = txs.clone();
+        l.push(Tx::Put(78, gen_val(r, &mut uniq)));
+        out.push(Mut::Txs(i, l));
+        out.push(Mut::VSigs(i));
+        out.push(Mut::Remove(i));
+        for j in 0..=n {
+            if j > i {
+                out.push(Mut::Swap(i, j));
+            }
+            if j != i {
+                out.push(Mut::Copy(i, j));
+            }
+        }
+        if i >= 1 {
+            let l = vec![Tx::Put(79, gen_val(r, &mut uniq))];
+            out.push(Mut::Forge(i, l.clone(), 0));
+            out.push(Mut::Forge(i, l.clone(), 1));
+            if i < n || c.extra == 0 {
+                out.push(Mut::Forge(i, l, 2));
+            }
+            out.push(Mut::Forge(i, txs.clone(), 1));
+        }
+    }
+    out
+}
+
+// ------------------------------------------------------------------------------------ conc
+struct HookCtl {
+    at: Mutex<Vec<usize>>, // threads currently parked at the hook, in arrival order
+    released: Mutex<Vec<bool>>,
+    cv: Condvar,
+    arrivals: mpsc::Sender<usize>,
+    auto: Mutex<bool>, // release everything immediately
+}
+thread_local! { static TID: std::cell::Cell<usize> = const { std::cell::Cell::new(usize::MAX) }; }
+
+fn conc_run(c: &Ctx, wss: &[Vec<Tx>], order: &[usize], use_hook: bool, dist: &mut Dist) -> (Vec<u64>, bool) {
+    // workspaces are begun and filled sequentially; only the commits run concurrently
+    let works: Vec<Arc<TransactionWorkspace>> = wss
+        .iter()
+        .map(|l| {
+            let w = c.chain.begin().unwrap();
+            for t in l {
+                w.add_operation(t.real()).unwrap();
+            }
+            w
+        })
+        .collect();
+    let nthr = wss.len();
+    let results: Arc<Mutex<Vec<u64>>> = Arc::new(Mutex::new(vec![99; nthr]));
+    let mut raced = false;
+    if use_hook {
+        let (txa, rxa) = mpsc::channel::<usize>();
+        let ctl = Arc::new(HookCtl {
+            at: Mutex::new(vec![]),
+            released: Mutex::new(vec![false; nthr]),
+            cv: Condvar::new(),
+            arrivals: txa,
+            auto: Mutex::new(false),
+        });
+        let hc = ctl.clone();
+        tensor_store::verif_hook::set(Some(Arc::new(move |name: &str| {
+            if name != "chain.commit.before_append" {
+                return;
+            }
+            let me = TID.with(|t| t.get());
+            if me == usize::MAX {
+                return;
+            }
+            hc.at.lock().unwrap().push(me);
+            let _ = hc.arrivals.send(me);
+            let mut rel = hc.released.lock().unwrap();
+            while !rel[me] && !*hc.auto.lock().unwrap() {
+                let (g, _) = hc.cv.wait_timeout(rel, Duration::from_millis(20)).unwrap();
+                rel = g;
+            }
+        })));
+        let spawn = |i: usize| {
+            let ch = c.chain.clone();
+            let w = works[i].clone();
+            let res = results.clone();
+            std::thread::spawn(move || {
+                TID.with(|t| t.set(i));
+                let r = ch.commit(&w);
+                res.lock().unwrap()[i] = code(&r);
+            })
+        };
+        // the first thread of the schedule goes first and parks at the hook (if it gets that far)
+        let mut handles = vec![];
+        let first = order[0];
+        handles.push(spawn(first));
+        let first_parked = rxa.recv_timeout(Duration::from_millis(400)).is_ok();
+        for &i in &order[1..] {
+            handles.push(spawn(i));
+        }
+        // who else reaches the hook while `first` is parked? (nobody, when commit is serialised)
+        let mut parked = if first_parked { vec![first] } else { vec![] };
+        let deadline = std::time::Instant::now() + Duration::from_millis(if first_parked { 120 } else { 10 });
+        while parked.len() < nthr {
+            let left = deadline.saturating_duration_since(std::time::Instant::now());
+            match rxa.recv_timeout(left) {
+                Ok(i) => parked.push(i),
+                Err(_) => break,
+            }
+        }
+        if parked.len() > 1 {
+            raced = true;
+            dist.hit("conc.several_threads_inside_commit");
+        }
+        // release the parked ones in REVERSE arrival order (the late-comer appends first), then everybody
+        for &i in parked.iter().rev() {
+            ctl.released.lock().unwrap()[i] = true;
+            ctl.cv.notify_all();
+            std::thread::sleep(Duration::from_millis(if raced { 30 } else { 0 }));
+        }
+        *ctl.auto.lock().unwrap() = true;
+        ctl.cv.notify_all();
+        for h in handles {
+            let _ = h.join();
+        }
+        tensor_store::verif_hook::set(None);
+    } else {
+        let bar = Arc::new(Barrier::new(nthr));
+        let handles: Vec<_> = (0..nthr)
+            .map(|i| {
+                let ch = c.chain.clone();
+                let w = works[i].clone();
+                let res = results.clone();
+                let bar = bar.clone();
+                std::thread::spawn(move || {
+                    bar.wait();
+                    let r = ch.commit(&w);
+                    res.lock().unwrap()[i] = code(&r);
+                })
+            })
+            .collect();
+        for h in handles {
+            let _ = h.join();
+        }
+    }
+    let r = results.lock().unwrap().clone();
+    (r, raced)
+}
+
+// ------------------------------------------------------------------------------------ replay
+struct Replica {
+    sm: TensorStateMachine,
+    store: TensorStore,
+}
+fn mk_replica(image: &[u8], leader: &Identity, shared: bool) -> Replica {
+    use tensor_chain::{MemoryTransport, RaftConfig, RaftNode};
+    let cstore = TensorStore::new();
+    cstore.restore_from_bytes(image).unwrap();
+    let graph = Arc::new(graph_engine::GraphEngine::with_store(cstore.clone()));
+    let reg = Arc::new(ValidatorRegistry::new());
+    reg.register(leader);
+    let chain = Arc::new(Chain::with_registry(graph, "replica".to_string(), reg));
+    chain.initialize().unwrap();
+    let transport = Arc::new(MemoryTransport::new("replica".to_string()));
+    let raft = Arc::new(RaftNode::new("replica".to_string(), vec![], transport, RaftConfig::default()));
+    let store = if shared { cstore } else { TensorStore::new() };
+    Replica { sm: TensorStateMachine::new(chain, raft, store.clone()), store }
+}
+fn rdump(s: &TensorStore, kk: u64) -> Vec<Option<Vec<u8>>> {
+    (0..kk)
+        .map(|k| match s.get(&format!("key{k}")) {
+            Ok(d) => match d.get("data") {
+                Some(TensorValue::Scalar(ScalarValue::Bytes(b))) => Some(b.clone()),
+                _ => Some(vec![255, 255]),
+            },
+            Err(_) => None,
+        })
+        .collect()
+}
+
+// ------------------------------------------------------------------------------------ main
+fn layout_term(h: &BlockHeader) -> String {
+    format!(
+        "({}, {}, {}, {}, {}, {}, {}, {}, {})",
+        h.height,
+        bytes(&h.prev_hash),
+        bytes(&h.tx_root),
+        bytes(&h.state_root),
+        bytes(&bitcode::serialize(&h.delta_embedding).unwrap()),
+        list(h.quantized_codes.iter().map(|x| n(*x as u64))),
+        h.timestamp,
+        bytes(h.proposer.as_bytes()),
+        bytes(&h.signing_bytes())
+    )
+}
+
+fn main() {
+    let args = Args::parse();
+    quiet_panics();
+    let mut rng = Rng::new(args.seed);
+    let mut dist = Dist::default();
+    let mut hits = Hits::default();
+    let mut seedc = 0u8;
+    let mut next_seed = || {
+        seedc = seedc.wrapping_add(1);
+        seedc
+    };
+
+    let mut seq = CaseWriter::new(&args.out, "seq");
+    let mut layout = CaseWriter::new(&args.out, "layout");
+    let emit_seq = |c: &Ctx, kk: u64, run: &SeqRun, human: &str, seq: &mut CaseWriter| {
+        let commits = run.ops.iter().zip(&run.obs).filter(|(o, b)| matches!(o, Op::Commit(..)) && b.res == 0).count();
+        seq.push(&seq_term(c, kk, c.gts(), run), &format!("{human} ops={:?}", run.ops), commits >= 1 && run.ops.len() >= 3);
+    };
+
+    // ---- corpus (every reproduced finding of DESIGN 5 + the ones found while building), first on every run
+    {
+        // F-C16-rollback: w0 begun, w1 commits, rollback(w0) restores the image taken at w0's begin
+        let c = mk(next_seed(), 8, 1, false);
+        let run = run_plan(&c, 3, vec![Plan::Begin, Plan::Put(0, 0, vec![1]), Plan::Begin, Plan::Put(1, 1, vec![2]), Plan::Commit(1), Plan::Rollback(0)]);
+        emit_seq(&c, 3, &run, "corpus rollback-stale-checkpoint: begin w0; begin w1; commit w1; rollback w0", &mut seq);
+        // rollback of a FAILED workspace after another commit
+        let c = mk(next_seed(), 1, 0, false);
+        let run = run_plan(&c, 3, vec![Plan::Begin, Plan::Put(0, 0, vec![1]), Plan::Put(0, 1, vec![2]), Plan::Begin, Plan::Put(1, 2, vec![3]), Plan::Commit(0), Plan::Commit(1), Plan::Rollback(0)]);
+        emit_seq(&c, 3, &run, "corpus rollback of a failed workspace after a later commit", &mut seq);
+        // unsigned first block through append_block
+        for sig in [1u64, 2, 3] {
+            let c = mk(next_seed(), 8, 0, false);
+            let mut d = Raw::good(0, vec![Tx::Put(0, vec![1])]);
+            d.sig = sig;
+            let run = run_plan(&c, 2, vec![Plan::Raw(d, 0)]);
+            emit_seq(&c, 2, &run, "corpus first-block-unsigned: append_block at height 1 without a valid signature", &mut seq);
+        }
+        // timestamp regression through append_block (fixed d4e50a08)
+        let c = mk(next_seed(), 8, 0, false);
+        let run = run_plan(&c, 2, vec![Plan::Begin, Plan::Put(0, 0, vec![1]), Plan::Commit(0), Plan::Raw(Raw::good(0, vec![Tx::Put(1, vec![2])]), -5), Plan::Raw(Raw::good(0, vec![]), 0)]);
+        emit_seq(&c, 2, &run, "corpus timestamp regression through append_block", &mut seq);
+    }
+
+    // ---- seq: random histories
+    let nseq = args.budget(120, 4000);
+    for i in 0..nseq {
+        let kk = rng.range(2, 4);
+        let maxtx = *rng.pick(&[2u64, 3, 8]);
+        let extra = rng.below(2);
+        let c = mk(next_seed(), maxtx, extra, rng.chance(1, 2));
+        let len = rng.range(3, 22) as usize;
+        // a third of the histories without rollback/raw so that long clean chains occur
+        let clean = i % 3 == 0;
+        let rb = !clean || rng.chance(1, 4);
+        let plan = gen_plan(&mut rng, kk, len, &mut dist, !clean, rb);
+        let run = run_plan(&c, kk, plan);
+        dist.hit(&format!("seq.len.{}", (run.ops.len() / 5) * 5));
+        dist.hit(&format!("seq.final_height.{}", c.chain.height().min(6)));
+        for o in &run.obs {
+            if o.res != 0 {
+                dist.hit(&format!("seq.err.{}", o.res));
+            }
+        }
+        emit_seq(&c, kk, &run, "random", &mut seq);
+        if i % 4 == 0 {
+            for h in 0..=c.chain.height() {
+                if let Some(b) = c.block(h) {
+                    layout.push(&layout_term(&b.header), &format!("header of a committed block h={h}"), h > 0);
+                }
+            }
+        }
+    }
+
+    // ---- layout: crafted headers (codes, embeddings, large integers)
+    let nlay = args.budget(150, 3000);
+    for _ in 0..nlay {
+        let mut h = BlockHeader::new(rng.next() >> rng.below(64), [0; 32], [0; 32], [0; 32], format!("node{}", rng.below(1000)));
+        for b in h.prev_hash.iter_mut().chain(h.tx_root.iter_mut()).chain(h.state_root.iter_mut()) {
+            *b = rng.below(256) as u8;
+        }
+        h.timestamp = rng.next() >> rng.below(64);
+        let nc = rng.below(4) as usize;
+        h.quantized_codes = (0..nc).map(|_| rng.below(65536) as u16).collect();
+        let dim = rng.below(6) as usize;
+        let dense: Vec<f32> = (0..dim).map(|_| if rng.chance(1, 2) { 0.0 } else { rng.below(7) as f32 - 3.0 }).collect();
+        h.delta_embedding = SparseVector::from_dense(&dense);
+        if rng.chance(1, 5) {
+            h.proposer = String::new();
+        }
+        // premise of the tamper theorems exercised on the real library: bitcode round trip of the embedding
+        let eb = bitcode::serialize(&h.delta_embedding).unwrap();
+        let back: SparseVector = bitcode::deserialize(&eb).unwrap();
+        if back != h.delta_embedding {
+            hits.push("", "bitcode round trip of a SparseVector failed", json!({"dense": format!("{dense:?}")}));
+        }
+        layout.push(&layout_term(&h), &format!("crafted header {:?}", h), nc > 0 || dim > 0);
+        dist.hit(&format!("layout.codes.{nc}"));
+    }
+
+    // ---- tamper: every mutation of every stored block of each chain
+    let mut tamper = CaseWriter::new(&args.out, "tamper");
+    let nchains = args.budget(10, 200);
+    for ci in 0..nchains + 2 {
+        let kk = 4;
+        let extra = if ci % 2 == 0 { 1 } else { 0 };
+        let c = mk(next_seed(), 8, extra, false);
+        // chain builders: commits only (corpus: genesis-only chain, chain with 3- and 6-tx blocks)
+        let mut plan = vec![];
+        let nblocks = if ci == 0 { 0 } else if ci == 1 { 3 } else { rng.range(1, 4) };
+        let mut uniq = 0u8;
+        for w in 0..nblocks as usize {
+            plan.push(Plan::Begin);
+            let ntx = if ci == 1 { [3usize, 6, 1][w] } else { rng.range(1, 5) as usize };
+            for _ in 0..ntx {
+                if rng.chance(5, 6) {
+                    plan.push(Plan::Put(w, rng.below(kk), gen_val(&mut rng, &mut uniq)));
+                } else {
+                    plan.push(Plan::Del(w, rng.below(kk)));
+                }
+            }
+            plan.push(Plan::Commit(w));
+        }
+        let run = run_plan(&c, kk, plan);
+        if c.ver() != 0 {
+            hits.push("", "verify() fails on a chain built by commits only", json!({"ops": format!("{:?}", run.ops)}));
+            continue;
+        }
+        let opsc = list(run.ops.iter().map(|o| o.coq()));
+        let muts = all_muts(&c, &mut rng);
+        let mut detected: HashMap<u64, Vec<(Mut, u64)>> = HashMap::new();
+        for m in muts {
+            let v = try_mut(&c, &m);
+            dist.hit(&format!("tamper.{}.{}", m.kind(), if v == 0 { "UNDETECTED" } else { "detected" }));
+            if c.ver() != 0 {
+                hits.push("", "chain does not verify after the mutated records were put back (harness bug)", json!({"mut": format!("{m:?}")}));
+            }
+            if v == 0 {
+                // every undetected mutation is its own case
+                let t = format!("({}, ({}, {}, {}, [({}, 0)]))", c.extra, c.maxtx, c.gts(), opsc, m.coq());
+                tamper.push(&t, &format!("UNDETECTED {:?} on chain height {} built by {:?}", m, c.chain.height(), run.ops), true);
+            } else {
+                let idx = match &m {
+                    Mut::Height(i, _) | Mut::Prev(i) | Mut::TxRoot(i) | Mut::SRoot(i) | Mut::Emb(i) | Mut::Codes(i, _) | Mut::Ts(i, _)
+                    | Mut::Proposer(i, _) | Mut::Sig(i, _) | Mut::Txs(i, _) | Mut::VSigs(i) | Mut::Remove(i) | Mut::Swap(i, _)
+                    | Mut::Copy(i, _) | Mut::Forge(i, _, _) => *i,
+                };
+                detected.entry(idx).or_default().push((m, v));
+            }
+        }
+        let mut keys: Vec<u64> = detected.keys().copied().collect();
+        keys.sort();
+        for i in keys {
+            let ms = &detected[&i];
+            let t = format!(
+                "({}, ({}, {}, {}, {}))",
+                c.extra,
+                c.maxtx,
+                c.gts(),
+                opsc,
+                list(ms.iter().map(|(m, v)| format!("({}, {})", m.coq(), v)))
+            );
+            tamper.push(&t, &format!("block {i} of chain height {}: {} detected mutations {:?}", c.chain.height(), ms.len(), ms), true);
+        }
+    }
+
+    // ---- conc: 2-4 concurrent commits
+    let mut conc = CaseWriter::new(&args.out, "conc");
+    let nconc = args.budget(14, 300);
+    for ci in 0..nconc {
+        let kk = 6u64;
+        let maxtx = 3u64;
+        let c = mk(next_seed(), maxtx, 0, ci % 2 == 0);
+        let mut uniq = 0u8;
+        // a prefix of sequential commits
+        let npre = rng.below(3) as usize;
+        let mut pre_blocks: Vec<Vec<Tx>> = vec![];
+        for _ in 0..npre {
+            let ntx = rng.range(1, 2) as usize;
+            let l = gen_txs_unique(&mut rng, kk, ntx, &mut uniq);
+            let w = c.chain.begin().unwrap();
+            for t in &l {
+                w.add_operation(t.real()).unwrap();
+            }
+            c.chain.commit(&w).unwrap();
+            pre_blocks.push(l);
+        }
+        let nthr = if ci == 0 { 2 } else { rng.range(2, 4) as usize };
+        let wss: Vec<Vec<Tx>> = (0..nthr)
+            .map(|t| {
+                if ci == 0 {
+                    vec![Tx::Put(t as u64, vec![t as u8])] // F-C16-race corpus: Put key0 / Put key1
+                } else {
+                    let ntx = match rng.below(10) {
+                        0 => 0,
+                        1 => 4, // exceeds max_txs_per_block
+                        _ => rng.range(1, 3) as usize,
+                    };
+                    { let kr = if rng.chance(1, 2) { 2 } else { kk }; gen_txs_unique(&mut rng, kr, ntx, &mut uniq) }
+                }
+            })
+            .collect();
+        let mut order: Vec<usize> = (0..nthr).collect();
+        rng.shuffle(&mut order);
+        let use_hook = ci % 5 != 4;
+        dist.hit(if use_hook { "conc.hook" } else { "conc.barrier" });
+        dist.hit(&format!("conc.threads.{nthr}"));
+        let (res, _raced) = conc_run(&c, &wss, &order, use_hook, &mut dist);
+        let n = c.chain.height();
+        let chain_txs: Vec<Vec<Tx>> = (1..=n).map(|h| c.block(h).map(|b| b.transactions.iter().filter_map(Tx::of).collect()).unwrap_or_default()).collect();
+        let tss: Vec<u64> = (1..=n).map(|h| c.block(h).map(|b| b.header.timestamp).unwrap_or(0)).collect();
+        let mut all_ws = pre_blocks.clone();
+        all_ws.extend(wss.iter().cloned());
+        let mut all_res = vec![0u64; npre];
+        all_res.extend(res.iter().copied());
+        let t = format!(
+            "({}, ({}, {}, {}, {}, {}, {}, {}, {}, {}))",
+            c.extra,
+            kk,
+            maxtx,
+            c.gts(),
+            list(all_ws.iter().map(|l| txs_coq(l))),
+            list(tss.iter().map(|x| n_(*x))),
+            list(all_res.iter().map(|x| n_(*x))),
+            list(chain_txs.iter().map(|l| txs_coq(l))),
+            c.ver(),
+            dump_coq(&c.dump(kk))
+        );
+        for r in &res {
+            dist.hit(&format!("conc.result.{r}"));
+        }
+        conc.push(&t, &format!("prefix={:?} concurrent={:?} start_order={:?} hook={} results={:?}", pre_blocks, wss, order, use_hook, res), true);
+    }
+
+    // ---- replay: the same blocks on two replicas
+    // mode "shared" = production wiring (cluster.rs, every test of the crate): chain records and state in ONE
+    // store, blocks produced by a leader TensorChain; mode "separate" = state in its own store, blocks built by the
+    // harness with the root derived on a scratch copy of the state.
+    let mut replay = CaseWriter::new(&args.out, "replay");
+    let nrep = args.budget(30, 600);
+    for ri in 0..nrep {
+        let kk = 4u64;
+        let shared = ri % 2 == 0;
+        let c = mk(next_seed(), 8, 0, false);
+        let image = c.chain.store().snapshot_bytes().unwrap();
+        let gts = c.gts();
+        let nb = rng.range(1, 5) as usize;
+        let mut uniq = 0u8;
+        let mut outs: Vec<(Vec<(u64, [u8; 32])>, Vec<Option<Vec<u8>>>)> = vec![];
+        let mut offered_desc: Vec<(Vec<Tx>, bool, Raw)> = vec![];
+        if shared {
+            let mut blocks: Vec<(Block, Vec<Tx>)> = vec![];
+            for _ in 0..nb {
+                let ntx = rng.range(1, 3) as usize;
+                let l = gen_txs(&mut rng, kk, ntx, &mut uniq);
+                let w = c.chain.begin().unwrap();
+                for t in &l {
+                    w.add_operation(t.real()).unwrap();
+                }
+                c.chain.commit(&w).unwrap();
+                blocks.push((c.block(c.chain.height()).unwrap(), l));
+            }
+            // offered: leader blocks in order, corrupted-root copies and duplicates in between.  Only the FIRST
+            // leader block can match a replica's root: afterwards the leader's root covers its own chain-link
+            // graph nodes, whose _created_at is the leader's wall clock (known finding state-root-covers-chain-records)
+            let mut offered: Vec<Block> = vec![];
+            for (bi, (b, l)) in blocks.iter().enumerate() {
+                if rng.chance(1, 4) {
+                    let mut bad = b.clone();
+                    bad.header.state_root[3] ^= 0x55;
+                    offered.push(bad);
+                    offered_desc.push((l.clone(), false, Raw::good(b.header.timestamp, vec![])));
+                    dist.hit("replay.shared.corrupt_root");
+                }
+                offered.push(b.clone());
+                offered_desc.push((l.clone(), bi == 0, Raw::good(b.header.timestamp, vec![])));
+                dist.hit("replay.shared.leader_block");
+            }
+            std::thread::sleep(Duration::from_millis(3));
+            for _ in 0..2 {
+                let rep = mk_replica(&image, &c.me, true);
+                let mut rs = vec![];
+                for b in &offered {
+                    let r = rep.sm.apply_block(b);
+                    let root = tensor_chain::compute_state_root(&rep.store).unwrap();
+                    rs.push((code(&r), root));
+                }
+                outs.push((rs, rdump(&rep.store, kk)));
+                std::thread::sleep(Duration::from_millis(3));
+            }
+        } else {
+            let reps = [mk_replica(&image, &c.me, false), mk_replica(&image, &c.me, false)];
+            let oracle = TensorStore::new(); // harness-side mirror of the accepted state
+            let mut rs: [Vec<(u64, [u8; 32])>; 2] = [vec![], vec![]];
+            let mut ts = gts;
+            let nb = nb + 2;
+            for _ in 0..nb {
+                let ntx = rng.range(0, 3) as usize;
+                let l = gen_txs(&mut rng, kk, ntx, &mut uniq);
+                let scratch = TensorStore::new();
+                scratch.restore_from_bytes(&oracle.snapshot_bytes().unwrap()).unwrap();
+                for t in &l {
+                    tensor_chain::transaction::apply_transaction_to_store(&scratch, &t.real()).unwrap();
+                }
+                let mut root = tensor_chain::compute_state_root(&scratch).unwrap();
+                let mut d = Raw::good(0, vec![]);
+                let mut good = true;
+                match rng.below(8) {
+                    0 => {
+                        root[5] ^= 1;
+                        good = false;
+                    }
+                    1 => d.height = rng.range(1, 2),
+                    2 => d.prev = rng.range(1, 2),
+                    3 => d.sig = rng.range(1, 3),
+                    _ => {}
+                }
+                ts += rng.below(3);
+                d.ts = ts;
+                d.txs = l.clone();
+                // height / prev are taken from replica 0's chain (both replicas hold the same chain)
+                let ch = reps[0].sm.chain();
+                let hgt = match d.height {
+                    0 => ch.height() + 1,
+                    1 => ch.height() + 2,
+                    _ => ch.height(),
+                };
+                let prev = match d.prev {
+                    0 => ch.tip_hash(),
+                    1 => [0u8; 32],
+                    _ => [0xAB; 32],
+                };
+                let who = if d.sig == 3 { &c.unk } else { &c.me };
+                let mut hdr = BlockHeader::new(hgt, prev, [0u8; 32], root, who.node_id());
+                hdr.delta_embedding = SparseVector::new(128);
+                hdr.timestamp = d.ts;
+                let mut blk = Block::new(hdr, l.iter().map(|t| t.real()).collect());
+                blk.header.tx_root = blk.compute_tx_root();
+                blk.header.signature = match d.sig {
+                    1 => vec![],
+                    2 => vec![0xAA; 64],
+                    _ => who.sign(&blk.header.signing_bytes()),
+                };
+                dist.hit(&format!("replay.separate.h{}p{}s{}{}", d.height, d.prev, d.sig, if good { "" } else { ".badroot" }));
+                let mut acc = false;
+                for (ri2, rep) in reps.iter().enumerate() {
+                    let r = rep.sm.apply_block(&blk);
+                    acc = r.is_ok();
+                    let rt = tensor_chain::compute_state_root(&rep.store).unwrap();
+                    rs[ri2].push((code(&r), rt));
+                }
+                if acc {
+                    oracle.restore_from_bytes(&scratch.snapshot_bytes().unwrap()).unwrap();
+                    if d.ts > ts {
+                        ts = d.ts;
+                    }
+                }
+                let mut dd = d.clone();
+                dd.txs = vec![];
+                offered_desc.push((l, good, dd));
+            }
+            for (i, rep) in reps.iter().enumerate() {
+                outs.push((rs[i].clone(), rdump(&rep.store, kk)));
+            }
+        }
+        // root ids: distinct roots numbered in order of first appearance over both replicas
+        let mut ids: HashMap<[u8; 32], u64> = HashMap::new();
+        let mut idof = |r: &[u8; 32]| {
+            let nxt = ids.len() as u64;
+            *ids.entry(*r).or_insert(nxt)
+        };
+        let rr: Vec<String> = outs.iter().map(|(rs, _)| list(rs.iter().map(|(c, r)| format!("({}, {})", c, idof(r))))).collect();
+        let accepted = outs[0].0.iter().filter(|(c, _)| *c == 0).count();
+        dist.hit(&format!("replay.{}.accepted.{}", if shared { "shared" } else { "separate" }, accepted.min(6)));
+        for (cd, _) in &outs[0].0 {
+            if *cd != 0 {
+                dist.hit(&format!("replay.err.{cd}"));
+            }
+        }
+        let t = format!(
+            "({}, ({}, {}, {}, {}, {}, {}, {}, {}))",
+            c.extra,
+            kk,
+            gts,
+            b(shared),
+            list(offered_desc.iter().map(|(l, good, d)| format!("({}, {}, {})", txs_coq(l), b(*good), d.coq()))),
+            rr[0],
+            rr[1],
+            dump_coq(&outs[0].1),
+            dump_coq(&outs[1].1)
+        );
+        replay.push(
+            &t,
+            &format!("shared_store={} offered={:?} results1={:?}", shared, offered_desc, outs[0].0.iter().map(|x| x.0).collect::<Vec<_>>()),
+            accepted >= 1,
+        );
+    }
+
+    let _ = AtomicUsize::new(0).load(Ordering::SeqCst);
+    write_meta(
+        &args.out,
+        json!({
+            "property": "C16", "seed": args.seed, "tier": args.tier,
+            "kinds": [seq.summary(), layout.summary(), tamper.summary(), conc.summary(), replay.summary()],
+            "distribution": dist.json(),
+            "hits": hits.0,
+            "nontrivial_rule": "seq: >= 3 calls with at least one successful commit; tamper: every case (a mutated stored block); conc: every case (>= 2 concurrent commits); replay: at least one block accepted; layout: a non-genesis committed header or a crafted one with codes/embedding",
+        }),
+    );
+}
+fn n_(x: u64) -> String {
+    n(x)
 }
